@@ -4,7 +4,7 @@
 (*   {"id":n, "mode":"direct"|"recurrence", "cap":max_cg_iters,                                            *)
 (*    "ev":[ {"k":"tiny"} | {"k":"begin"} |                                                                *)
 (*           {"k":"it","curv":"pos"|"nonpos","step":b,"cross":b,"small":b,"dq":"LT"|"EQ"|"GT","tn":class}  *)
-(*           ... , {"k":"ret","exit":s,"iters":n,"nrm":class,"res":b,"cmpC":code,"cmp0":code,              *)
+(*           ... , {"k":"ret","exit":s,"iters":n,"nrm":class,"nrmC":class,"res":b,"cmpC":code,"cmp0":code, *)
 (*                  "cauchyOut":s} ]}                                                                      *)
 (* "it" events are the environment answers observed through the recording hess_vec / precond callables;    *)
 (* they drive the spec's own actions.  The "ret" event is the abstracted return value: the contract        *)
@@ -34,25 +34,30 @@ Apply(e) ==
                                                                ELSE Hold /\ pathOK' = FALSE
     [] e.k = "ret"   -> Hold /\ pathOK' = pathOK
 
+\* corrupted copies of valid traces (ids >= 9000000) are injected by the harness to show that every contract
+\* clause can fail (binding self-test); they are exempt from the mechanism comparison
+SelfTest == Traces[tid].id >= 9000000
+
 \* ---- clauses.  Contract clauses: literal readings of property C06 (first sentence) on the returned step.
 \* ---- drift_* clauses compare with the mechanism the spec models and never raise a violation.
 RetClauses(e) ==
   [ cg_inside          |-> InsideTR(e),
     cg_on_boundary     |-> OnBoundary(e),
+    cg_gross_norm      |-> LET c == [e EXCEPT !.nrm = e.nrmC] IN InsideTR(c) /\ OnBoundary(c),   \* same predicates, coarse class
     cg_newton_residual |-> NewtonResidual(e),
     cg_beats_cauchy    |-> BeatsCauchy(e),
     cg_never_increases |-> NeverIncreases(e),
     cg_step_type       |-> e.exit \in {"interior", "neg curve", "boundary", "interior_"},
-    drift_path         |-> pathOK /\ exit = e.exit /\ iters = e.iters,
-    drift_cauchy_out   |-> cauchyOut = e.cauchyOut,
+    drift_path         |-> SelfTest \/ (pathOK /\ exit = e.exit /\ iters = e.iters),
+    drift_cauchy_out   |-> SelfTest \/ cauchyOut = e.cauchyOut,
     drift_monotone     |-> TRUE,
     drift_tracking     |-> TRUE ]
 ItClauses(e) ==
-  [ cg_inside |-> TRUE, cg_on_boundary |-> TRUE, cg_newton_residual |-> TRUE, cg_beats_cauchy |-> TRUE,
+  [ cg_inside |-> TRUE, cg_on_boundary |-> TRUE, cg_gross_norm |-> TRUE, cg_newton_residual |-> TRUE, cg_beats_cauchy |-> TRUE,
     cg_never_increases |-> TRUE, cg_step_type |-> TRUE, drift_path |-> TRUE, drift_cauchy_out |-> TRUE,
     drift_monotone     |-> e.dq # "GT",                                   \* the model never goes up along the iterates
     drift_tracking     |-> IF e.step THEN e.tn = "in" ELSE e.tn = "on" ]  \* tracked norm = norm in the configured inner product
-ClauseNames == {"cg_inside", "cg_on_boundary", "cg_newton_residual", "cg_beats_cauchy", "cg_never_increases",
+ClauseNames == {"cg_inside", "cg_on_boundary", "cg_gross_norm", "cg_newton_residual", "cg_beats_cauchy", "cg_never_increases",
                 "cg_step_type", "drift_path", "drift_cauchy_out", "drift_monotone", "drift_tracking"}
 
 Reset(t) ==
